@@ -12,7 +12,15 @@ Init == cid \in 1..Len(Cases) /\ verdict = <<>>
 EditOf(e) == <<e.op, e.pos, e.sym>>
 \* c: g, start, dna, vt, indel, heap (0 = unrestricted), w (<<>> when the input is not an edited walk), es (list of [op, pos, sym]),
 \*    out, cands, det, flag, count, visited, ticks, shape (the call returned a (list of strings, 4-tuple) pair)
-Judge(c) ==
+\* kind "pm": one recorded path_matching call: c.chunk, c.prev, c.occ, c.indel, c.records = list of [kind, pos, nt, s], c.visited
+JudgePm(c) ==
+  LET live == Lives[c.g]  k == Gs[c.g].k  N == 4^k
+      want == PathMatchRecords(live, N, c.chunk, c.prev, c.occ, c.indel)
+      got == [i \in 1..Len(c.records) |-> <<c.records[i].kind, c.records[i].pos, c.records[i].nt, c.records[i].s>>]
+  IN IF got # want THEN <<"conformance:path_matching-records">>
+     ELSE IF c.visited # PathMatch(live, N, c.chunk, c.prev, c.occ, c.indel).visited THEN <<"conformance:path_matching-visited">>
+     ELSE <<>>
+JudgeRepair(c) ==
   LET live == Lives[c.g]  k == Gs[c.g].k  N == 4^k  n == Len(c.dna)
       walk == IsWalk(live, N, c.start, c.dna)
       es == [i \in 1..Len(c.es) |-> EditOf(c.es[i])]
@@ -33,6 +41,7 @@ Judge(c) ==
        \o (IF c.w # <<>> /\ ~edited THEN <<"note:edit-set-not-admissible">> ELSE <<>>)
        \o (IF <<c.cands, c.det>> # <<spec.cands, spec.det>> THEN <<"conformance:result-differs-from-machine">>
            ELSE IF <<c.flag, c.count, c.visited>> # <<spec.flag, spec.count, spec.visited>> THEN <<"conformance:statistics-differ">> ELSE <<>>)
+Judge(c) == IF "kind" \in DOMAIN c /\ c.kind = "pm" THEN JudgePm(c) ELSE JudgeRepair(c)
 Check == /\ verdict = <<>> /\ verdict' = (LET v == Judge(Cases[cid]) IN IF v = <<>> THEN <<"ok">> ELSE v)
          /\ PrintT(ToJson([cid |-> cid, verdict |-> verdict'])) /\ UNCHANGED cid
 Next == Check
